@@ -667,6 +667,10 @@ func (c *Core) verifyParameters(ctx context.Context, params *consensusAPI.Parame
 	if err := pb.Unmarshal(params.Meta); err != nil {
 		return fmt.Errorf("malformed parameters: %w", err)
 	}
+	if pb.Block == nil || pb.Evidence == nil || pb.Validator == nil || pb.Version == nil {
+		// All sections are dereferenced by the conversion below.
+		return fmt.Errorf("malformed parameters: missing section")
+	}
 	cmtparams := cmttypes.ConsensusParamsFromProto(pb)
 	if err := cmtparams.ValidateBasic(); err != nil {
 		return err
